@@ -23,7 +23,9 @@ RULE = (
     "subject (every transform, distribution, flow) x config (<=1 deviation; thorough <=2) x pattern {init, pat1} x mode {eval, train} x "
     "argument kind {fresh, non-contiguous view, slice of a larger tensor, requires_grad leaf, non-leaf with grad history} (applied to "
     "inputs and context) x ALL call histories of length <=2 (thorough <=3) over {forward(x1), forward(x2), inverse(y1)} resp. "
-    "{log_prob(x1), log_prob(x2), sample(2), sample_and_log_prob(2), transform_to_noise(x1)}. Non-trivial = history of length >=2 "
+    "{log_prob(x1), log_prob(x2), sample(2), sample_and_log_prob(2), transform_to_noise(x1)}, each alphabet plus the first call with "
+    "arguments in the other floating dtype (may raise; must not change state). In eval mode every result is also compared bitwise with the "
+    "same call made as the only call on a freshly built object (order independence). Non-trivial = history of length >=2 "
     "or a non-fresh argument kind."
 )
 ASSUMPTIONS = [
@@ -33,8 +35,8 @@ ASSUMPTIONS = [
     "sampling calls are made reproducible with torch.manual_seed before each call",
 ]
 
-T_OPS = ("fwd1", "fwd2", "inv1")
-D_OPS = ("lp1", "lp2", "sample", "salp", "t2n")
+T_OPS = ("fwd1", "fwd2", "inv1", "fwd32")
+D_OPS = ("lp1", "lp2", "sample", "salp", "t2n", "lp32")
 KINDS = ("fresh", "noncontig", "slice", "leaf", "nonleaf")
 
 
@@ -66,6 +68,13 @@ def make_arg(x, kind):
         a = leaf * 1.0
         return a, [a, leaf]
     raise ValueError(kind)
+
+
+def _other(t):
+    """the same values in the other floating dtype (integer / bool tensors unchanged)"""
+    if not t.is_floating_point():
+        return t
+    return t.double() if t.dtype == torch.float32 else t.float()
 
 
 def snap_tensors(ts):
@@ -105,7 +114,7 @@ def diff_state(m, snap, allowed):
     cur = dict(list(m.named_parameters()) + list(m.named_buffers()))
     for n, c in snap.items():
         t = cur.get(n)
-        if t is None or t.shape != c.shape or not torch.equal(t.detach(), c):
+        if t is None or t.shape != c.shape or t.dtype != c.dtype or not torch.equal(t.detach(), c):
             if n not in allowed:
                 out.append(n)
     return out
@@ -119,7 +128,7 @@ def same(a, b):
     return a.shape == b.shape and torch.equal(a.detach(), b.detach())
 
 
-def explore(obj, ops_table, hist, kind, train, is_eval_repeatable=True):
+def explore(obj, ops_table, hist, kind, train, is_eval_repeatable=True, refs=None):
     """run one history; returns list[(cellclass, symptom, msg)]"""
     out = []
     first = {}
@@ -162,6 +171,13 @@ def explore(obj, ops_table, hist, kind, train, is_eval_repeatable=True):
                     out.append(("repeat:eval", "repeated call differs", "%s: result differs bitwise from the first %s call of this history" % (where, op)))
             else:
                 first[op] = res
+            # order independence: the same call as the only call on a freshly built object (same mode, same grad mode)
+            rk = (op, kind in ("leaf", "nonleaf"))
+            if refs is not None:
+                if len(hist) == 1:
+                    refs.setdefault(rk, res)
+                elif rk in refs and not same(refs[rk], res):
+                    out.append(("order:eval", "result depends on the calls made before", "%s: result differs bitwise from the same call made first on a freshly built object" % where))
         if out:
             break
     return out
@@ -195,6 +211,9 @@ def run_transform_case(sname, cfg, pname, seed, tier, res=None, only=None):
             bump(res["skipped"], "cannot-construct/forward (other properties): %s" % type(e).__name__)
         return vio
     jobs = [(only["train"], only["kind"], tuple(only["hist"]))] if only else [(tr, k, h) for tr in (False, True) for k in KINDS for h in histories(T_OPS, depth)]
+    if only and not only["train"]:
+        jobs = [(False, only["kind"], (op,)) for op in dict.fromkeys(only["hist"])] + jobs
+    refs = {}
     for train, kind, hist in jobs:
         if "inv1" in hist and not s.has_inverse:
             continue
@@ -204,8 +223,9 @@ def run_transform_case(sname, cfg, pname, seed, tier, res=None, only=None):
             return (lambda x, c=None: fn(x, c)) if cs is not None else (lambda x: fn(x))
 
         table = {"fwd1": (mk(m.forward), [x1] + ([c1] if cs is not None else [])), "fwd2": (mk(m.forward), [x2] + ([c2] if cs is not None else [])),
-                 "inv1": (mk(m.inverse), [y1] + ([c1] if cs is not None else []))}
-        vs = explore(m, table, hist, kind, train, is_eval_repeatable=True)
+                 "inv1": (mk(m.inverse), [y1] + ([c1] if cs is not None else [])),
+                 "fwd32": (mk(m.forward), [_other(x1)] + ([_other(c1)] if cs is not None else []))}
+        vs = explore(m, table, hist, kind, train, is_eval_repeatable=True, refs=None if train else refs)
         if res is not None:
             res["evaluations"] += 1
             res["states"] += len(hist)
@@ -231,6 +251,9 @@ def run_dist_case(dname, cfg, pname, seed, tier, res=None, only=None):
     c1, c2 = d.contexts(cfg, 3, seed), d.contexts(cfg, 2, seed + 3)
     ops = [o for o in D_OPS if (o != "t2n" or d.is_flow) and (o not in ("sample", "salp") or d.can_sample)]
     jobs = [(only["train"], only["kind_arg"], tuple(only["hist"]))] if only else [(tr, k, h) for tr in (False, True) for k in KINDS for h in histories(ops, depth)]
+    if only and not only["train"]:
+        jobs = [(False, only["kind_arg"], (op,)) for op in dict.fromkeys(only["hist"])] + jobs
+    refs = {}
     for train, kind, hist in jobs:
         try:
             obj = DC.materialise(d, cfg, pname, seed, train=train)
@@ -245,9 +268,10 @@ def run_dist_case(dname, cfg, pname, seed, tier, res=None, only=None):
             "sample": ((lambda c=None: obj.sample(2, context=c)), ([c2] if hasc else [])),
             "salp": ((lambda c=None: obj.sample_and_log_prob(2, context=c)), ([c2] if hasc else [])),
         }
+        table["lp32"] = ((lambda x, c=None: obj.log_prob(x, context=c)), [_other(x1)] + ([_other(c1)] if hasc else []))
         if d.is_flow:
             table["t2n"] = ((lambda x, c=None: obj.transform_to_noise(x, context=c)), [x1] + ([c1] if hasc else []))
-        vs = explore(obj, table, hist, kind, train, is_eval_repeatable=True)
+        vs = explore(obj, table, hist, kind, train, is_eval_repeatable=True, refs=None if train else refs)
         if res is not None:
             res["evaluations"] += 1
             res["states"] += len(hist)
